@@ -747,6 +747,7 @@ def check_c04(pid, tier, seed, rep):
         e = T["errors"][0]
         rep.violation("corrT-uncovered", dict(cases=T["errors"][:5]), "type-spelling correspondence: %s (%s)" % (e["what"], e.get("type", "")[:120]), True)
     cov["type_spelling_cases"] = T["n"]
+    cov["type_spelling_cases_meeting_theorem_hypothesis"] = T.get("well_formed")
     cov["type_spelling_kinds"] = T["kinds"]
     cov.update(programs=len(N["records"]) + vetted + T["n"], disagreements_checked=len(N["records"]) + vetted + T["n"], evaluations=len(N["records"]) + vetted + T["n"],
                correspondence_disagreements=len(T["mismatches"]),
